@@ -56,7 +56,7 @@ def draw_case(draw, closed=()):
     outs = [k for k, _ in nd["ops"]]
     keys = list(nd.get("group_by") or []) if nd["op"] == "project" else []
     cur = t
-    suffix = g.pick(["none", "none", "overwrite", "drop", "overwrite_then_select"])
+    suffix = g.pick(["none", "none", "overwrite", "drop", "overwrite_then_select", "drop_then_overwrite"])
     if nd["op"] == "extend":
         suffix = g.pick(["none", "none", "window2", "window2", "window2", "overwrite"])
     if suffix == "window2":
@@ -86,6 +86,21 @@ def draw_case(draw, closed=()):
             droppable = outs if keys else outs[:-1]
             if droppable:
                 nxt = b.add({"op": "drop_columns", "src": cur, "cols": droppable})
+                cur = nxt if nxt is not None else cur
+        elif suffix == "drop_then_overwrite":
+            # some outputs dropped, every remaining one replaced by a constant: nothing of the aggregation is read any more
+            osch = b.schemas[t]
+            if len(outs) >= 2:
+                nxt = b.add({"op": "drop_columns", "src": cur, "cols": outs[:-1]})
+                if nxt is not None:
+                    cur = nxt
+                    lits = {"int": 1, "float": 0.5, "str": "z", "bool": True}
+                    nxt = b.add({"op": "extend", "src": cur, "ops": [[outs[-1], ["lit", lits[osch.cols[outs[-1]]["type"]]]]]})
+                    cur = nxt if nxt is not None else cur
+            else:
+                suffix = "overwrite"
+                lits = {"int": 1, "float": 0.5, "str": "z", "bool": True}
+                nxt = b.add({"op": "extend", "src": cur, "ops": [[k, ["lit", lits[osch.cols[k]["type"]]]] for k in outs]})
                 cur = nxt if nxt is not None else cur
     case = b.finish(cur)
     case["root"] = cur
